@@ -154,7 +154,9 @@ pub fn drive(ctx: &Ctx) -> Summary {
             let case: Value = serde_json::from_str(&line).expect("case json");
             let (defs, filter, body) = c20::case_parts(&case);
             let o = crate::runner::run_guarded(std::panic::AssertUnwindSafe(|| {
-                emit_history(&mut out, &defs, &filter, &body, Some((every, k as u64)))
+                // sampled by the hash of the case text, so that the selection does not depend on the order in
+                // which TLC's workers printed the cases
+                emit_history(&mut out, &defs, &filter, &body, Some((every, crate::runner::hash_line(&line))))
             }));
             let distinct = seen.insert(crate::runner::hash_line(&line));
             sum.absorb(&json!({"defs": defs, "filter": c20::filter_json(&filter), "body": body}), &o, distinct);
